@@ -112,12 +112,20 @@ def main():
         finally:
             shutil.rmtree(root, ignore_errors=True)
 
+    def safe(m):
+        try:
+            return one(m)
+        except Exception as e:                                   # noqa  (e.g. a mutant whose text no longer applies)
+            print('%-32s could not be applied/run: %s' % (m['id'], e), flush=True)
+            return {'id': m['id'], 'targets': m['targets'], 'note': m.get('note', ''), 'fired': [], 'quiet': [],
+                    'error': ['apply'], 'first': {}, 'ok': False}
+
     if a.j > 1:
         from multiprocessing.pool import ThreadPool
         with ThreadPool(a.j) as pool:
-            results = pool.map(one, muts, chunksize=1)
+            results = pool.map(safe, muts, chunksize=1)
     else:
-        results = [one(m) for m in muts]
+        results = [safe(m) for m in muts]
     out = a.out
     old = json.load(open(out)) if os.path.exists(out) else {}
     for r in results:
